@@ -118,6 +118,25 @@ fn build_objects(p: &Program) -> (Vec<BoxSource>, Vec<String>) {
   (objs, texts)
 }
 
+/// Non-blocking snapshots of the map caches reachable from the root objects through a chain of
+/// CachedSource wrappers: (object index, depth, columns, final_source, address of the cached map).
+fn cache_snapshots(objs: &[BoxSource]) -> Vec<(usize, usize, bool, bool, usize)> {
+  use rspack_sources::CachedSource;
+  let mut out = Vec::new();
+  for (i, o) in objs.iter().enumerate() {
+    let mut cur: &BoxSource = o;
+    let mut depth = 0;
+    while let Some(c) = cur.as_ref().as_any().downcast_ref::<CachedSource<BoxSource>>() {
+      for (columns, fin, ptr) in c.verif_cache_try_snapshot() {
+        out.push((i, depth, columns, fin, ptr));
+      }
+      cur = c.original();
+      depth += 1;
+    }
+  }
+  out
+}
+
 fn run_op(objs: &[BoxSource], texts: &[String], op: &Op) -> Answer {
   match op {
     Op::Call(i, c) => answer(objs[*i].as_ref(), *c, &texts[*i]),
@@ -240,7 +259,25 @@ pub fn run_schedule(p: &Program, prefix: &[usize]) -> Execution {
     }
   }
   let mut last: Option<usize> = None;
+  // write-once monitor that does not depend on where the library stores: every cache entry seen
+  // in a (non-blocking) snapshot must keep its map for the rest of the execution
+  let mut seen_entries: BTreeMap<(usize, usize, bool, bool), usize> = BTreeMap::new();
   loop {
+    for (i, d, c, f, ptr) in cache_snapshots(&objs) {
+      match seen_entries.get(&(i, d, c, f)) {
+        Some(old) if *old != ptr => {
+          ex.replaced_cache_entry.push(format!(
+            "the map cached for (columns={c}, final_source={f}) in object {i} (wrapper depth {d}) was replaced after step {:?}",
+            ex.trace.last()
+          ));
+          seen_entries.insert((i, d, c, f), ptr);
+        }
+        Some(_) => {}
+        None => {
+          seen_entries.insert((i, d, c, f), ptr);
+        }
+      }
+    }
     let unfinished: Vec<usize> = (0..ths.len()).filter(|&t| !ths[t].finished).collect();
     if unfinished.is_empty() {
       break;
